@@ -2,6 +2,7 @@ import Panacea.Driver.CompKey
 import Panacea.Driver.Aol
 import Panacea.Driver.Did
 import Panacea.Driver.Validate
+import Panacea.Driver.Pnft
 /-! Model driver: one operation per input line, one answer per output line. -/
 open Panacea Panacea.Driver
 
@@ -10,6 +11,7 @@ structure DState where
   aol : AolD := {}
   sigs : SigTable := {}
   did : DidD := {}
+  pnft : PnftD := {}
 
 def stepLine (st : DState) (line : String) : DState × String :=
   let toks := (line.splitOn " ").filter (· ≠ "")
@@ -24,13 +26,21 @@ def stepLine (st : DState) (line : String) : DState × String :=
     match Bytes.ofHex sg, Bytes.ofHex pk, Bytes.ofHex m with
     | some a, some b, some c => ({ st with sigs := { entries := (a, b, c) :: st.sigs.entries } }, "-")
     | _, _, _ => (st, "bad-op")
-  | ["reset"] => ({ st with aol := {}, did := {} }, "-")
+  | ["reset"] => ({ st with aol := {}, did := {}, pnft := {} }, "-")
+  | ["now", n] =>
+    match n.toInt? with
+    | some t => ({ st with aol := { st.aol with now := t }, pnft := { st.pnft with now := t } }, "-")
+    | none => (st, "bad-op")
   | tok :: _ =>
     if tok.startsWith "ck." then
       (st, (compkeyStep st.addrs toks).getD "bad-op")
     else if tok = "reset" || tok = "now" || tok.startsWith "aol." || tok.startsWith "mon.c01." then
       match aolStep st.addrs st.aol toks with
       | some (d, ans) => ({ st with aol := d }, ans)
+      | none => (st, "bad-op")
+    else if tok.startsWith "pnft." || tok = "mon.c12" then
+      match pnftStep st.addrs st.pnft toks with
+      | some (d, ans) => ({ st with pnft := d }, ans)
       | none => (st, "bad-op")
     else if tok.startsWith "vb." || tok.startsWith "mon.c18." then
       (st, (validateStep st.addrs toks).getD "bad-op")
